@@ -52,6 +52,21 @@ Qed.
 (* a line the reader does not skip *)
 Definition cp_data_line (raw : text) : bool := match charprop_line raw with CLSkip => false | _ => true end.
 
+(* ... which are exactly: blank lines, lines whose first non-blank character is the comment character, range lines (0x..) *)
+Lemma cp_data_line_iff : forall raw,
+  cp_data_line raw = false <->
+  (trim raw = [] \/ (exists c l, trim raw = c :: l /\ ((c =? UF.charprop_comment)%N || starts_with UF.charprop_range_prefix (c :: l)) = true)).
+Proof.
+  intros raw. unfold cp_data_line, charprop_line. destruct (trim raw) as [|c l].
+  - split; [intros _; left; reflexivity|reflexivity].
+  - destruct ((c =? UF.charprop_comment)%N || starts_with UF.charprop_range_prefix (c :: l)) eqn:E.
+    + split; [intros _; right; exists c, l; split; [reflexivity|exact E]|reflexivity].
+    + split.
+      * intros H. exfalso. destruct (too_few UF.charprop_cols_guard (words (c :: l))); [discriminate|].
+        destruct (parse_category (col (words (c :: l)) 0)); discriminate.
+      * intros [H|[c' [l' [H1 H2]]]]; [discriminate|]. inversion H1; subst. congruence.
+Qed.
+
 (* what an accepted line says, in terms of its white-space separated columns *)
 Definition cp_row_spec (raw : text) (ci : catinfo) : Prop :=
   let cols := words (trim raw) in
@@ -191,6 +206,23 @@ Qed.
 (* ------------------------------------------------------------------ unk.def lines *)
 
 Definition unk_data_line (cats : list N) (raw : text) : bool := match unk_line cats raw with ULSkip => false | _ => true end.
+
+Lemma unk_data_line_iff : forall cats raw,
+  unk_data_line cats raw = false <-> (trim raw = [] \/ exists l, trim raw = UF.unk_comment :: l).
+Proof.
+  intros cats raw. unfold unk_data_line, unk_line. destruct (trim raw) as [|c l].
+  - split; [intros _; left; reflexivity|reflexivity].
+  - destruct (c =? UF.unk_comment)%N eqn:E.
+    + apply N.eqb_eq in E. subst c. split; [intros _; right; exists l; reflexivity|reflexivity].
+    + apply N.eqb_neq in E. split.
+      * intros H. exfalso. destruct (too_few UF.unk_cols_guard (split_on UF.unk_separator (c :: l))); [discriminate|].
+        destruct (parse_category (col (split_on UF.unk_separator (c :: l)) 0)) as [cat|]; [|discriminate].
+        destruct (negb (existsb (N.eqb cat) cats)); [discriminate|].
+        destruct (parse_int Guards.unk_left_id_ty (col (split_on UF.unk_separator (c :: l)) 1)); [|discriminate].
+        destruct (parse_int Guards.unk_right_id_ty (col (split_on UF.unk_separator (c :: l)) 2)); [|discriminate].
+        destruct (parse_int Guards.unk_cost_ty (col (split_on UF.unk_separator (c :: l)) 3)); discriminate.
+      * intros [H|[l' H]]; [discriminate|]. inversion H. congruence.
+Qed.
 
 (* what an accepted line says, in terms of its comma separated columns *)
 Definition unk_row_spec (cats : list N) (raw : text) (u : unk_tpl) : Prop :=
